@@ -461,8 +461,8 @@ class W09:
             v = ["EXC", "StepLimitExceeded"]
         except Exception as e:  # noqa: BLE001
             v = ["EXC", type(e).__name__]
-        base = key.rsplit(":", 1)[0]
-        self.results.append({"key": base + ":view", "digest": model.digest(v), "op": self.opi, "task": None})
+        # the views of a result are keyed by that result's own key (tree / pre-built variants stay apart)
+        self.results.append({"key": key + "/view", "digest": model.digest(v), "op": self.opi, "task": None})
 
     def do_mutate(self, ri):
         if not self.stored:
